@@ -116,6 +116,8 @@ pub fn check_text(src: &str, ctx: &mut Ctx) -> Outcome {
         fails.push((format!("C11|column|{}", class), d));
     }
     // (3) diagnostics
+    let sep = ['\u{b}', '\u{c}', '\u{85}', '\u{2028}', '\u{2029}'];
+    let line_class = if src.chars().any(|c| sep.contains(&c)) { "|extra-line-terminator" } else { "" };
     if let Some(errs) = &errors {
         for d in errs.iter() {
             let Some(loc) = d.error.location() else { continue };
@@ -128,7 +130,7 @@ pub fn check_text(src: &str, ctx: &mut Ctx) -> Outcome {
                         let only_line = (r.start.column, r.end.column) == (rs.1, re.1);
                         let only_col = (r.start.line, r.end.line) == (rs.0, re.0);
                         fails.push((
-                            format!("C11|diagnostic|range|{}", if only_col { "column" } else if only_line { "line" } else { "both" }),
+                            format!("C11|diagnostic|range|{}", if only_col { "column".to_string() } else if only_line { format!("line{}", line_class) } else { format!("both{}", line_class) }),
                             format!("diagnostic span {}..{}: line_column_range {:?}..{:?}, reference {:?}..{:?} in {:?}", s, e, r.start, r.end, rs, re, src),
                         ));
                     }
@@ -139,7 +141,7 @@ pub fn check_text(src: &str, ctx: &mut Ctx) -> Outcome {
                 if (first.line, first.column) != rs {
                     let only_col = first.line == rs.0;
                     fails.push((
-                        format!("C11|diagnostic|json|{}", if only_col { "column" } else { "line" }),
+                        format!("C11|diagnostic|json|{}", if only_col { "column".to_string() } else { format!("line{}", line_class) }),
                         format!("diagnostic span {}..{}: JSON location {:?}, reference {:?} in {:?}", s, e, first, rs, src),
                     ));
                 }
